@@ -1,4 +1,5 @@
 CONSTANTS Design = "code" W = 10
+CONSTANT Cond <- CondThr
 SPECIFICATION Spec
 INVARIANTS Exact Sound
 CHECK_DEADLOCK FALSE
